@@ -11,7 +11,7 @@
    In-block decoding is an oracle value per block (Ok objs | Err | Panic), see checks.d/C06.json. *)
 From Coq Require Import ZArith List Bool Lia.
 From Verif Require Import Framing.Model Framing.Valid Framing.Proofs Framing.GenOk Framing.Bytes C06.ProofsBytes
-                          C06.Spec C06.Proofs C06.ProofsDamage C06.InBlock C06.Bridge C06.Skip.
+                          C06.Spec C06.Proofs C06.ProofsDamage C06.InBlock C06.Bridge C06.Skip C06.Session.
 Import ListNotations.
 Open Scope Z_scope.
 
@@ -201,6 +201,27 @@ Theorem C06_inflate_follows_raw_size : forall rs z,
   inflated_bytes current (EncZlib rs z) <= Z.max 0 (rs + 1).
 Proof. exact inflated_bytes_follow_raw_size. Qed.
 Print Assumptions C06_inflate_follows_raw_size.
+
+(* 4. "... THEN STOPS": the Scanner's call interface (scanner.go Scan / Err / Header with its one
+   error slot; C06/Session.v) over any decoder that delivers objects and then ends with io.EOF or
+   an error ([start] = what Start answers, [fin] = what Next answers at the end, both arbitrary):
+   whatever was called before (cs1), once a Scan has returned false, whatever is called after
+   (cs2) - every Scan returns false, every Err returns the same value, every Header reports an
+   error.  Correspondence: case kind SESSION (call scripts on cut files). *)
+Theorem C06_then_stops : forall (T : Type) (start fin : serr),
+  nonnil fin = true -> forall (s : sess (O := T)) cs1 cs2,
+  snd (sstep start fin (sfinal start fin s cs1) KScan) = RScanFalse ->
+  exists e ys, srun start fin s (cs1 ++ KScan :: cs2) = srun start fin s cs1 ++ RScanFalse :: ys /\
+               Forall (quiet e) ys.
+Proof. exact (@then_stops_any). Qed.
+Print Assumptions C06_then_stops.
+
+(* a plain Scan loop on a started scanner returns the decoder's objects, then false *)
+Theorem C06_scan_loop : forall (T : Type) (start fin : serr) (l : list T) (s : sess),
+  started s = true -> s_err s = ENil -> feed s = l ->
+  srun start fin s (repeat KScan (S (length l))) = map (@RObj T) l ++ [RScanFalse].
+Proof. exact (@scan_loop). Qed.
+Print Assumptions C06_scan_loop.
 
 (* ---- the code as it was found violates the property (findings, all repaired in /repo) ---- *)
 Definition ex_hdr : frame Z :=
